@@ -179,6 +179,20 @@ func (c *PlanCache) Get(schema *Schema, query, operationName string) PlanResult 
 	verifhook.Count(verifhook.PlanCacheGetMiss)
 	verifhook.Yield(verifhook.PlanCacheGetMiss)
 	if vr := ValidateDocument(schema, normDoc, nil); !vr.IsValid {
+		if len(synthArgs) > 0 {
+			// The rewritten document is invalid. That can be the rewriting's
+			// doing (a literal left in a fragment no longer matches the
+			// extracted one of the same field, say), so the verdict has to
+			// come from the document as written: serve it un-normalised,
+			// cached under its own text.
+			rawKey := operationName + "\x00raw\x00" + query
+			if pr, ok := c.lookup(schema, rawKey); ok {
+				return pr
+			}
+			pr := planAndValidate(schema, query, operationName)
+			c.store(schema, rawKey, pr)
+			return pr
+		}
 		pr := PlanResult{Errors: vr.Errors}
 		c.store(schema, cacheKey, pr)
 		return pr
